@@ -61,6 +61,7 @@ PROPS = {
         "units": [
             {"kind": "verus", "unit": "locate"},
             {"kind": "verus", "unit": "slocate"},
+            {"kind": "verus", "unit": "setupd"},
         ],
         "unreached": [
             "XMapping::{try_put_located, put, with_update}, XSet::with_update: insertion / overwrite and `len` maintenance (references into `&mut self`, HashMap::get_mut / entry)",
